@@ -156,6 +156,7 @@ func genC11(driver string, col *ev.Collector) func(*rapid.T) c11Case {
 		// A Maven soft requirement on an unknown version makes the whole resolution fail, so
 		// the override leg does not generate them; Update does not resolve and keeps them.
 		cfg.UnknownReqs = driver != drvMavenOverride
+		cfg.DottedNames = os.Getenv("VERIF_GREM_DOTTED") != "" // off by default: package.json writer finding of C13
 		c := c11Case{Driver: driver, Scenario: universe.GenScenario(t, cfg)}
 		switch driver {
 		case drvMavenUpdate:
@@ -396,7 +397,7 @@ func propC11Fix(c c11Case) (ev.Outcome, error) {
 					}
 				}
 			}
-			if underMovedParent {
+			if underMovedParent && c.Driver == drvMavenOverride {
 				// class c11.override_pin_below_moved_parent: the same patch also changes a package
 				// that (transitively) depends on this one
 				cls["change_under_moved_parent"] = true
